@@ -60,7 +60,10 @@ def showEvents (all : List SEvent) (fresh : List SEvent) : String :=
 
 def showState (st : St) : String :=
   if st.freed then "R- I0/0" else
-  let rs := st.sessions.map fun s => toString s.idx ++ "=" ++ toString s.ref ++ "@" ++ toString s.last
+  -- M's `ref`; S's holder count is printed next to it only if it differs (by `ref_eq_holders` it never does), so the
+  -- reference counts the implementation is compared with ARE the numbers of holders
+  let rs := st.sessions.map fun s => toString s.idx ++ "=" ++ toString s.ref ++
+    (if s.ref = st.holds s.sid then "" else "!holds" ++ toString (st.holds s.sid)) ++ "@" ++ toString s.last
   "R" ++ (if rs.isEmpty then "-" else String.intercalate "," rs) ++
   " I" ++ toString (st.idleOn 0 1).length ++ "/" ++ toString (st.idleOn 1 1).length
 
